@@ -372,6 +372,22 @@ pub fn many_entries_family(tier: Tier) -> Vec<(String, ModelSpec)> {
     out
 }
 
+/// F15: dictionary words and character n-grams made of characters OUTSIDE the BMP (4-byte UTF-8), alone and mixed
+/// with 1- and 3-byte characters; every subset of up to 2 of 6 such entries plus one fixed companion.
+pub fn nonbmp_family() -> Vec<Built> {
+    let pool = [Entry::Dict("𠀋".into()), Entry::Dict("a𠀋".into()), Entry::Dict("𠀋𠀋a".into()), Entry::Dict("あ𠀋".into()), Entry::Char("𠀋a".into()), Entry::Char("𠀋".into())];
+    let mut out = vec![];
+    for sub in gen::subsets_upto(pool.len(), 2).into_iter().skip(1) {
+        let mut es: Vec<Entry> = sub.iter().map(|&i| pool[i].clone()).collect();
+        es.push(Entry::Char("a".into()));
+        for (k, (w, tags)) in [(1u8, false), (2, true), (3, false)].into_iter().enumerate() {
+            let es2: Vec<Entry> = es.iter().filter(|e| models::admissible(e, w, w)).cloned().collect();
+            out.push(mk(&es2, w, w, [0, 3, -5][k], (k % 2) as u8, tags));
+        }
+    }
+    out
+}
+
 /// Texts longer than twice the largest window of the sparse family (the far entries of a long weight vector reach a
 /// boundary only there), containing its unigram, its type run and its dictionary words.
 pub fn long_window_texts() -> Vec<String> {
@@ -711,6 +727,12 @@ pub fn run(tier: Tier) -> ! {
         }
         fam_counts.insert("F14-32-bit-weights".into(), json!(f14.len()));
         f14.par_iter().for_each(|b| check_model(&chk, b, &texts, true));
+    }
+    {
+        let f15 = nonbmp_family();
+        let t15 = gen::strings(&['a', '𠀋', 'あ'], 1, tier.pick(4, 5));
+        fam_counts.insert("F15-non-BMP-entries".into(), json!(f15.len()));
+        f15.par_iter().for_each(|b| check_model(&chk, b, &t15, true));
     }
     let f13: Vec<Built> = many_entries_family(tier).into_iter().map(|(desc, spec)| Built { spec, desc }).collect();
     fam_counts.insert("F13-many-entries".into(), json!(f13.len()));
